@@ -19,7 +19,7 @@ LEVEL = "proof"
 
 
 def crash_search(chk, binp, flavour, n, fails):
-    fl, summary, crashed = e2e.run(chk, binp, "C01", n, timeout=900)
+    fl, summary, crashed = e2e.run(chk, binp, "C01", n, timeout=900 if n <= 50000 else 5400)
     chk.note("crash_search_" + flavour, summary)
     chk.add_eval(summary.get("evaluations", 0), summary.get("nontrivial", 0))
     if crashed:
@@ -66,16 +66,16 @@ def run(chk):
         if not ok:
             raise RuntimeError("harness does not build even without hooks: " + blog[-600:])
     else:
-        dis, stats, sample = bufcorr.run(chk, binp, 900 if thorough else 300, wild=35, tag="c01buf", seed_offset=1)
+        dis, stats, sample = bufcorr.run(chk, binp, 3000 if thorough else 300, wild=35, tag="c01buf", seed_offset=1)
         chk.note("buffer_correspondence_malformed_stream", stats)
         chk.add_eval(stats["steps"], stats["steps_followed_by_model"])
         chk.sample({"buffer_op_sequence": sample})
-    crash_search(chk, binp, "release", 40000 if thorough else 5000, fails)
+    crash_search(chk, binp, "release", 200000 if thorough else 5000, fails)
     okc, binc, blogc = C.cargo_build("checked", hooks=True)
     if not okc:
         okc, binc, blogc = C.cargo_build("checked", hooks=False)
     if okc:
-        crash_search(chk, binc, "overflow-checked", 40000 if thorough else 5000, fails)
+        crash_search(chk, binc, "overflow-checked", 200000 if thorough else 5000, fails)
     else:
         broken.append("checked-build-failed: " + blogc[-400:])
     # known findings, decided on the call site / the input (see KNOWN_FINDINGS.txt):
